@@ -93,8 +93,11 @@ theorem standard_audio (w : Writer) (width height : Nat) (md : Option Metadata) 
   rename_i hsz
   split at hok
   · simp at hok
+  rename_i hoff
+  split at hok
+  · simp at hok
   rename_i hp
-  simp only [hsz, hp, if_false]
+  simp only [hsz, hoff, hp, if_false]
   have hl := schedule_payload_length vs aus
   refine ⟨?_, by rw [hl]; omega⟩
   rw [Box.sers, Box.sers, Box.sers, Box.sers, mdat_ser _ _ hl]
